@@ -251,7 +251,7 @@ C["C09"] = {
 C["C24"] = {
  "pkgs": ["."],
  "technique": "bounded symbolic execution of publishToClient/OutboundTopicAliases.Set with drops and deferrals as solver choices, and of processPublish/InboundTopicAliases.Set; alias bindings tracked on the wire by the reference decoder",
- "quick": {"harnesses": [H("VerifC24Outbound", MSGS=2), H("VerifC24Resend"), H("VerifC24Inbound", MSGS=2), H("VerifC24AfterResume")], "budget_s": 400, "witnesses": 8, "perm_limit": 1,
+ "quick": {"harnesses": [H("VerifC24Outbound", MSGS=3), H("VerifC24Resend"), H("VerifC24Inbound", MSGS=2), H("VerifC24AfterResume")], "budget_s": 400, "witnesses": 8, "perm_limit": 1,
    "bounds": "outbound: client Topic Alias Maximum 0..2, Receive Maximum 1..2, outbound queue capacity 1..2, 2 messages on topics from {x,y,z} with QoS 0/1, write loop catching up or not after each; resend after reconnect with the first message acknowledged or not; inbound: broker maximum 0..2, 2 publishes with alias 0..3 and topic from {'',x,y}"},
  "thorough": {"harnesses": [H("VerifC24Outbound", MSGS=3), H("VerifC24Resend"), H("VerifC24Inbound", MSGS=3), H("VerifC24AfterResume")], "budget_s": 2400, "witnesses": 16, "perm_limit": 1, "bounds": "as quick with 3 messages"},
  "outside_bounds": ["alias maxima above 2", "longer sequences"],
